@@ -490,6 +490,11 @@ class Env:
         return it.st.fresh_sv('str_' + tag, 'str')
 
     # ------------------------------------------------------------ exceptions
+    def call_other(self, it, f, a, k):
+        if isinstance(f, ExcClass):
+            return ExcVal(f.name, tuple(a))
+        return NotImplemented
+
     def exc_class_name(self, c):
         if isinstance(c, ExcClass):
             return c.name
@@ -1138,6 +1143,8 @@ class Env:
             return o.name
         if isinstance(o, BoundMethod):
             return it.getattr(o.func, name)
+        if isinstance(o, EnvFunc) and name == '__name__':
+            return o.name.split('.')[-1]
         raise Unsupported('attribute %s of %r' % (name, o))
 
     # methods on values ---------------------------------------------------
